@@ -21,7 +21,7 @@ func init() {
 	core.Register(&core.Check{
 		ID:    "C05",
 		Level: "exploration",
-		Rule: "a valid generated base program (effects at the very start and in every block, functions, an event handler, graphics calls) plus exactly one rule-breaking edit from a catalogue of 26 edit kinds (undeclared/unused variable, variable of a sibling if-branch, redeclaration incl. parameters, loop variables, built-in globals and function names, type mismatches, argument counts, missing return at the end and in a single branch of an if/else-if/else chain, unreachable code, break outside a loop, return value in a procedure/handler/top level, bare return in a function, unknown function, stray tokens after statements and after every kind of end, two statements on one line, non-bool condition), applied at every line where the rule applies; each case runs in-process through Evaluator.Run with the recording platform and, sampled, through the real `evy run` (with and without --svg-out). distinct = distinct (edit kind, line kind, error message shape)",
+		Rule: "a valid generated base program (effects at the very start and in every block, functions, an event handler, graphics calls) plus exactly one rule-breaking edit from a catalogue of 27 edit kinds (undeclared/unused variable, variable of a sibling if-branch, redeclaration incl. parameters, loop variables, built-in globals and function names, type mismatches, argument counts, missing return at the end and in a single branch of an if/else-if/else chain, unreachable code, break outside a loop, return value in a procedure/handler/top level, bare return in a function, unknown function, call of a procedure used as a value (element, map value, operand, argument, declaration), stray tokens after statements and after every kind of end, two statements on one line, non-bool condition), applied at every line where the rule applies; each case runs in-process through Evaluator.Run with the recording platform and, sampled, through the real `evy run` (with and without --svg-out). distinct = distinct (edit kind, line kind, error message shape)",
 		Assumptions: []string{"base programs are produced by the C10 generator (accepted by construction; a rejected base is reported as a harness failure)"},
 		NeedsEvy:    true,
 		NumCases: func(tier string) int {
@@ -189,6 +189,12 @@ func c05Edits() []c05Edit {
 		ins("break-outside-loop", "break", func(l c05Line) bool { return !l.inLoop && l.kind != "if" && l.kind != "elseif" && l.kind != "else" }),
 		ins("return-value-in-procedure", "return 1", func(l c05Line) bool { return l.inFunc == "proc" || l.inFunc == "on" }),
 		ins("return-at-top-level", "return 1", func(l c05Line) bool { return l.inFunc == "" && l.indent == "" && l.kind == "end" }),
+		ins("procedure-call-as-value", "print [(noret_q)]", any),
+		ins("procedure-call-as-value", "print {a:(noret_q)}", func(l c05Line) bool { return l.kind == "decl" || l.kind == "end" }),
+		ins("procedure-call-as-value", "print (noret_q)==(noret_q)", func(l c05Line) bool { return l.kind == "decl" || l.kind == "end" }),
+		ins("procedure-call-as-value", "print [1 (noret_q)]+[2]", func(l c05Line) bool { return l.kind == "decl" || l.kind == "end" }),
+		ins("procedure-call-as-value", "pv_q := (noret_q)", any),
+		ins("procedure-call-as-value", "print (noret_q)", func(l c05Line) bool { return l.kind == "decl" || l.kind == "end" }),
 		ins("redeclare-builtin-global", "err := true", any),
 		ins("redeclare-function-name", "pnum := 1", any),
 		ins("assign-to-function", "pnum = 1", any),
@@ -315,7 +321,9 @@ func c05Base(c *core.Ctx) string {
 	n := c.Rng.Intn(4)
 	chain, _ := returnPathsSource(c.Rng, n, nil, []string{"num", "string"}[c.Rng.Intn(2)])
 	chain = strings.Replace(chain, "return ", "return  ", -1) // marks the branch returns for the edit catalogue
-	return head + base + chain + tail
+	// a procedure (no return value): its call is a statement, never a value
+	proc := "func noret_q\n    print \"noret\"\nend\n"
+	return head + base + chain + proc + tail
 }
 
 func c05Run(c *core.Ctx, i int) {
